@@ -42,7 +42,7 @@ func genScanCases(prop, tier string, rng *rand.Rand) []genCase {
 	directed := map[string]func() []genCase{
 		"C01": c.dirC01, "C02": c.dirC02, "C03": c.dirC03C06, "C04": c.dirC04, "C06": c.dirC03C06, "C07": c.dirC07, "C08": c.dirC08,
 		"C09": func() []genCase { return c.dirBranches("cordon") }, "C10": func() []genCase { return c.dirBranches("annot") },
-		"C11": func() []genCase { return c.dirBranches("dry") }, "C12": c.dirC12, "C15": c.dirC15, "C19": c.dirC19, "C20": c.dirC20,
+		"C11": func() []genCase { return c.dirBranches("dry") }, "C12": c.dirC12, "C15": c.dirC15, "C19": c.dirC19, "C20": c.dirC20, "C05S": c.dirC05S,
 	}
 	nRandom, nHist := 150, 14
 	if c.thorough {
@@ -730,12 +730,12 @@ func (c *streamCtx) dirC07() []genCase {
 }
 
 // ---------- C08: oldest first ----------
-func permutations(n int) [][]int {
+func scanPermutations(n int) [][]int {
 	if n == 0 {
 		return [][]int{{}}
 	}
 	out := [][]int{}
-	for _, p := range permutations(n - 1) {
+	for _, p := range scanPermutations(n - 1) {
 		for i := 0; i <= len(p); i++ {
 			q := append(append(append([]int{}, p[:i]...), n-1), p[i:]...)
 			out = append(out, q)
@@ -754,7 +754,7 @@ func (c *streamCtx) dirC08() []genCase {
 	all := []genCase{}
 	for _, ms := range multisets {
 		k := len(ms)
-		for _, perm := range permutations(k) {
+		for _, perm := range scanPermutations(k) {
 			// skip permutations that only exchange equal timestamps
 			dup := false
 			for i := 0; i < k && !dup; i++ {
